@@ -221,7 +221,15 @@ func ParseRevocationList(der []byte) (*RevocationList, error) {
 				return nil, err
 			}
 			if ext.Id.Equal(oidExtensionAuthorityKeyId) {
-				rl.AuthorityKeyId = ext.Value
+				// RFC 5280, 5.2.1: the value is an AuthorityKeyIdentifier
+				// SEQUENCE; AuthorityKeyId is its keyIdentifier.
+				var a authKeyId
+				if rest, err := asn1.Unmarshal(ext.Value, &a); err != nil {
+					return nil, err
+				} else if len(rest) != 0 {
+					return nil, errors.New("x509: trailing data after X.509 authority key-id")
+				}
+				rl.AuthorityKeyId = a.Id
 			} else if ext.Id.Equal(oidExtensionCRLNumber) {
 				value := cryptobyte.String(ext.Value)
 				rl.Number = new(big.Int)
